@@ -283,6 +283,7 @@ package verify
 
 //@ func extractChainFromQuoteV4(quote) (r, err)
 //@   reveal chainBlocks
+//@   fresh r
 //@   ensures[blocks] quoteOK(quote) && err == nil ==> r != nil && chainBlocks(r, pckChainBytes(quote))
 //@   ensures[wf] err == nil ==> r != nil && certObjWF(r.PCKCertificate) && certObjWF(r.IntermediateCertificate) && certObjWF(r.RootCertificate)
 //@   ensures[complete] quoteOK(quote) && qerc(quote).PckCertificateChainData.PckCertChain != nil && pemOK(pckChainBytes(quote)) && pemType(pckChainBytes(quote)) == "CERTIFICATE"
@@ -517,6 +518,10 @@ package verify
 //@   ensures[tcb-request-names-fmspc] err == nil && options.GetCollateral ==> get[0].happened && before(get[0], url) == call("pcs.TcbInfoURL", options.pckCertExtensions.FMSPC)
 //@   ensures[exts-of-leaf] err == nil ==> pckext[0].happened && before(pckext[0], cert) == options.chain.PCKCertificate && options.pckCertExtensions == after(pckext[0], r)
 //@   ensures[history] options.Now == old(options.Now)
+// the per-call state kept in the options is that of this call: nothing an
+// earlier call left there survives into the verdict
+//@   ensures[state-of-this-call] err == nil ==> (options.GetCollateral ==> fresh(options.collateral)) && (!options.GetCollateral ==> options.collateral == nil)
+//@ |     && fresh(options.chain) && fresh(options.pckCertExtensions)
 //@   ensures[typed-error-collateral] err != nil && get[0].happened && !get[2].happened && options.collateral == nil ==> errhas(err, "*trust.AttestationRecreationErr")
 
 //@ func TdxQuote(quote, options) (err)
